@@ -84,6 +84,87 @@ Eval vm_compute in (1%nat, idx (fun c => agree (ingest (fst c)) (snd c)) cases).
     return dict(cases=len(rows), bad=bad, disagreements=dis, coq_failures=fails)
 
 
+def files_leg(out, recs, n):
+    """The same job set handed to the real CLI (pv2puml, positional file paths) in four file presentations:
+       F0 one array file per job, listed in order;   F1 the same files listed shuffled, events shuffled inside each file;
+       F2 one event per file with -group-by-job, listed job by job;   F3 the same single-event files listed interleaved.
+    Every presentation must succeed or fail like F0 and give a language-equivalent diagram."""
+    import json, random
+    from concurrent.futures import ThreadPoolExecutor
+    from . import clilib as C
+    rnd = random.Random(out.seed * 7529 + 33)
+    cases = []
+    recs = list(recs)
+    rnd.shuffle(recs)
+    for rec in recs[:n]:
+        jobs = L.complete_jobs(rec)
+        if len(jobs) >= 2:
+            cases.append(dict(rec=rec, jobs=jobs[:12], seed=rnd.randrange(10**9)))
+
+    def one(case):
+        r2 = random.Random(case["seed"])
+        res = {}
+        with common.Scratch("c03f") as d:
+            pv = [P.pv_events(j, i, "wf") for i, j in enumerate(case["jobs"])]
+            layouts = {}
+            (d / "j").mkdir(); (d / "e").mkdir()
+            jf = []
+            for i, evs in enumerate(pv):
+                p = d / "j" / f"job_{i:04d}.json"
+                p.write_text(json.dumps(evs))
+                jf.append(str(p))
+            layouts["F0"] = (jf, [])
+            jf1 = []
+            for i, evs in enumerate(pv):
+                p = d / "j" / f"shuf_{i:04d}.json"
+                evs = list(evs)
+                r2.shuffle(evs)
+                p.write_text(json.dumps(evs))
+                jf1.append(str(p))
+            r2.shuffle(jf1)
+            layouts["F1"] = (jf1, [])
+            ef = []
+            for i, evs in enumerate(pv):
+                for k, e in enumerate(evs):
+                    p = d / "e" / f"ev_{i:04d}_{k:04d}.json"
+                    p.write_text(json.dumps(e))
+                    ef.append(str(p))
+            layouts["F2"] = (ef, ["-group-by-job"])
+            ef3 = list(ef)
+            r2.shuffle(ef3)
+            layouts["F3"] = (ef3, ["-group-by-job"])
+            for name, (files, extra) in layouts.items():
+                rc, tail = C.run_cli(["-o", str(d / name), "pv2puml", "-jn", "wf"] + extra + files, d)
+                f = d / name / "wf.puml"
+                res[name] = dict(rc=rc, text=f.read_text() if f.exists() else None, tail=tail[-300:] if rc or not f.exists() else "")
+        return res
+    with ThreadPoolExecutor(max_workers=common.NPROC) as ex:
+        results = list(ex.map(one, cases))
+    pairs, where, bad = [], [], []
+    for k, r in enumerate(results):
+        ok0 = r["F0"]["text"] is not None
+        for name in ("F1", "F2", "F3"):
+            okv = r[name]["text"] is not None
+            if ok0 != okv:
+                bad.append((k, name, f"F0 {'succeeds' if ok0 else 'fails'}, {name} {'succeeds' if okv else 'fails'}: {r[name]['tail'] or r['F0']['tail']}"))
+            elif ok0 and r[name]["text"] != r["F0"]["text"]:
+                try:
+                    pairs.append((P.tokenize(r["F0"]["text"]), P.tokenize(r[name]["text"])))
+                    where.append((k, name))
+                except ValueError as e:
+                    bad.append((k, name, f"unlexable: {e}"))
+    eq = L.coq_equiv(pairs) if pairs else []
+    fails = 0
+    for (k, name), e in zip(where, eq):
+        if e is None:
+            fails += 1
+        elif e["a_ok"] != e["b_ok"]:
+            bad.append((k, name, "well-formed under one file presentation, malformed under the other"))
+        elif e["a_ok"] and (not e["same_events"] or e["e1"] or e["e2"]):
+            bad.append((k, name, f"different language: {e['e1'][:3]}|{e['e2'][:3]}"))
+    return dict(cases=cases, results=results, bad=bad, pairs=len(pairs), coq_failures=fails)
+
+
 def run(out, explore=0):
     okp = common.proof_obligations(out, "C03")
     quick = out.tier == "quick"
@@ -152,6 +233,19 @@ def run(out, explore=0):
             out.violation({"kind": "correspondence-broken",
                            "relation": "update_and_create_events_from_clustered_pvevents == V.Pv.EventModel.ingest (job graphs with same-typed siblings)",
                            "disagreements": leg["disagreements"][:5], "coq_failures": leg["coq_failures"][:2]}, no_failing_input=True)
+    fl = files_leg(out, [r for r in recs if not str(r["id"]).startswith("K:")], 16 if quick else 150) if okp else None
+    if fl:
+        for k, name, why in fl["bad"][:3]:
+            c = fl["cases"][k]
+            key = L.finding_key("C03", c["rec"]["id"], name, "file-presentation")
+            if out.match_finding(key):
+                out.known_finding(key)
+                continue
+            out.violation(dict(kind="diagram depends on how the job set is laid out in files", key=key, presentation=name, why=why,
+                               definition=P.show(c["rec"]["d"]), definition_id=c["rec"]["id"], jobs=c["jobs"], layout_seed=c["seed"],
+                               baseline_output=fl["results"][k]["F0"]["text"], output=fl["results"][k][name]["text"]))
+        if fl["coq_failures"] and not out.violations:
+            out.violation({"kind": "certificate-evaluation-failed", "leg": "file presentations", "n": fl["coq_failures"]}, no_failing_input=True)
     sample = next((it for it in items if it.get("text") and it["variant"] == 5), items[0])
     out.coverage.update({
         "programs": sum(1 for it in items if it.get("tokens")), "disagreements_checked": sum(kinds.values()),
@@ -161,6 +255,10 @@ def run(out, explore=0):
         "failure_kinds": kinds, "failing_keys": failing, "pairs_compared": len(other),
         "ingestion_leg": None if not leg else dict(cases=leg["cases"], presentation_dependent=len(leg["bad"]), model_disagreements=len(leg["disagreements"])),
         "traces_validated_against_impl": leg["cases"] if leg else 0,
+        "file_presentation_leg": None if not fl else dict(definitions=len(fl["cases"]), cli_runs=4 * len(fl["cases"]), rejected=len(fl["bad"]),
+                                                          pairs_compared_in_coq=fl["pairs"],
+                                                          layouts="F0 array file per job; F1 files listed shuffled + events shuffled inside; "
+                                                                  "F2 one event per file with -group-by-job, job by job; F3 the same files interleaved"),
         "evaluations": len(items), "distinct_nontrivial": len({it["rec"]["id"] for it in items if it["rec"]["events"] >= 4}),
         "rule": "pool slice + the 63 corpus definitions + 40 (thorough: 250) definitions of the frozen pool R (same event type in two branches of a fork) + 60 (thorough: 143) of the frozen pool B (a branch beginning with a nested fork, plus a shared event type) x presentation variants (job permutation, event permutation inside jobs, id renaming + time shift, a job "
                 "supplied twice, PYTHONHASHSEED in {0,1,12345,777,4242} in separate processes, distinct uuid streams); each variant "
